@@ -147,6 +147,19 @@ let dp (lines : string list) =
             pr_result "Q" qid r;
             if spec = 1 then pr_result "S" qid (spec_execute (Hashtbl.find datasets ds) q);
             go rest
+          | "HIST" | "ENDHIST" | "CONC" | "LRUD" -> go rest
+          | "HQ" ->
+            let qid = next c in let ds = next c in let w = writer_of (next c) in
+            let pre = (next c = "preload") in
+            let e = next_expr c in
+            if next c <> "GB" then failwith "expected GB";
+            let m = next_int c in
+            let gb = List.init m (fun _ -> next_str c) in
+            let q = { q_expr = e; q_group_by = gb } in
+            let r = (match get_index ds w pre with
+                     | Ok ix -> m_execute ix q | Err -> Err | Panic -> Panic | Hang -> Hang) in
+            pr_result "HQ" qid r;
+            go rest
           | "QVAL" ->
             let qid = next c in
             let k = next_int c in
